@@ -326,6 +326,127 @@ def use_box() -> int:
 '''
 
 
+# Binding templates: ONE binding of the program (marked @X@) is spelled either like another, unrelated name of the same program or with a
+# fresh name. A textual renaming cannot separate two bindings that share a spelling; here the separation is by construction:
+# rename(fresh -> colliding)(transpile(P[fresh])) must equal transpile(P[colliding]).
+TEMPLATES: list[tuple[str, str, str]] = [
+	# (colliding spelling, fresh spelling, program)
+	('Node', 'Vertex', '''class Tree:
+	class Node:
+		weight: int
+
+		def __init__(self, weight: int) -> None:
+			self.weight = weight
+
+	nodes: list[Node]
+
+	def __init__(self) -> None:
+		self.nodes = []
+
+
+class Graph:
+	class @X@:
+		degree: int
+
+		def __init__(self, degree: int) -> None:
+			self.degree = degree
+
+	nodes: list[@X@]
+
+	def __init__(self) -> None:
+		self.nodes = []
+
+
+def summary(tree: Tree, graph: Graph) -> int:
+	tree_nodes = tree.nodes
+	graph_nodes = graph.nodes
+	first = Graph.@X@(2)
+	return len(tree_nodes) + len(graph_nodes) + first.degree
+'''),
+	('value', 'entry', '''class Node:
+	value: int
+
+	def __init__(self, value: int) -> None:
+		self.value = value
+
+
+def collect(@X@: Node, scale: int) -> int:
+	def scaled(offset: int) -> int:
+		return @X@.value * scale + offset
+
+	return scaled(1) + @X@.value
+'''),
+	('count', 'amount', '''class Bag:
+	count: int
+
+	def __init__(self) -> None:
+		self.count = 0
+
+	def grow(self, @X@: int) -> int:
+		self.count = self.count + @X@
+		total = [self.count for i in range(@X@)]
+		return len(total)
+
+
+def count(n: int) -> int:
+	return n + 1
+
+
+def use(@X@: int) -> int:
+	b = Bag()
+	fn = lambda q: q + @X@ + b.count
+	return b.grow(@X@) + fn(1)
+
+
+def twice(n: int) -> int:
+	return count(n) + count(n)
+'''),
+	('Box', 'Crate', '''class Box:
+	n: int
+
+	def __init__(self, n: int) -> None:
+		self.n = n
+
+
+def make(n: int) -> Box:
+	class @X@:
+		m: int
+
+		def __init__(self, m: int) -> None:
+			self.m = m
+
+	inner = @X@(n)
+	return Box(inner.m)
+'''),
+]
+
+
+def check_template(acc: Acc, colliding: str, fresh: str, template: str) -> None:
+	from rogw.tranp.errors import Errors
+	s = session()
+	case = {'kind': 'template', 'colliding': colliding, 'fresh': fresh, 'source': template}
+	outs = {}
+	for spelling in (colliding, fresh):
+		try:
+			s.reload('__main__', template.replace('@X@', spelling))
+			outs[spelling] = s.transpile('__main__')
+		except Errors.Error as e:
+			acc.case(None)
+			if spelling == colliding:
+				# the colliding spelling may legitimately be refused (e.g. shadowing rules); the fresh one decides nothing alone
+				acc.inconc('template refused with the colliding spelling: ' + type(e).__name__, str(e)[:200])
+			else:
+				acc.inconc('template refused with the fresh spelling: ' + type(e).__name__, str(e)[:200])
+			return
+	acc.see('binding_templates', f'{fresh}->{colliding}')
+	back = re.sub(rf'\b{re.escape(fresh)}\b', colliding, outs[fresh])
+	acc.case(sig_of(template), {'template': template[:200], 'colliding': colliding, 'fresh': fresh}, True)
+	if back != outs[colliding]:
+		a, b = back.split('\n'), outs[colliding].split('\n')
+		i = next((j for j in range(min(len(a), len(b))) if a[j] != b[j]), min(len(a), len(b)))
+		acc.violation('output-differs', f'[binding template {fresh} -> {colliding}] line {i + 1}: renamed output of the fresh spelling {a[i] if i < len(a) else "<eof>"!r}, output of the colliding spelling {b[i] if i < len(b) else "<eof>"!r}', case)
+
+
 def shard(ctx: Ctx, acc: Acc) -> None:
 	from vf.gen.typed import TypedGen
 	n = N_PROGRAMS[ctx.tier]
@@ -333,6 +454,9 @@ def shard(ctx: Ctx, acc: Acc) -> None:
 		check_program(acc, {'source': SPECIAL}, ctx.rng('special'))
 	if ctx.shard == 1 % ctx.nshards:
 		check_program(acc, {'source': SPECIAL2}, ctx.rng('special2'))
+	if ctx.shard == 2 % ctx.nshards:
+		for colliding, fresh, template in TEMPLATES:
+			check_template(acc, colliding, fresh, template)
 	for i in range(n):
 		if not ctx.mine(i):
 			continue
@@ -354,6 +478,9 @@ def shard(ctx: Ctx, acc: Acc) -> None:
 
 
 def replay(ctx: Ctx, case: dict, acc: Acc) -> None:
+	if case.get('kind') == 'template':
+		check_template(acc, case['colliding'], case['fresh'], case['source'])
+		return
 	c = dict(case)
 	if c.get('renamings'):
 		c['renamings'] = [(l, m) for l, m in c['renamings']]
